@@ -499,6 +499,27 @@ pub fn gen_cases<G: AffineRepr>(seed: u64, tier: &str, stream: &str, curve_idx: 
                         }
                     }
                 }
+                if k % 8 == 6 {
+                    // targeted: zero (and other special) assignments on the SECOND half of an allocation pair, followed by
+                    // further single allocations — the handles must not depend on the witness values
+                    let z = |rng: &mut ChaChaRng| -> F<G> { match rng.gen_range(0..3) { 0 => F::<G>::zero(), 1 => F::<G>::from(1u64), _ => F::<G>::rand(rng) } };
+                    let mut tail: Vec<COp<F<G>>> = vec![];
+                    let singles = g.prog.iter().filter(|o| matches!(o, COp::Alloc(Some(_)))).count();
+                    if singles % 2 == 1 { tail.push(COp::Alloc(Some(F::<G>::rand(&mut rng)))); }
+                    tail.push(COp::Alloc(Some(z(&mut rng))));
+                    tail.push(COp::Alloc(Some(F::<G>::zero())));
+                    tail.push(COp::Alloc(Some(F::<G>::rand(&mut rng))));
+                    tail.push(COp::Len);
+                    tail.push(COp::Alloc(Some(F::<G>::zero())));
+                    tail.push(COp::Alloc(Some(z(&mut rng))));
+                    tail.push(COp::Len);
+                    let body = vec![ROp::Alloc(Some(Sx::C(F::<G>::rand(&mut rng)))), ROp::Alloc(Some(Sx::C(F::<G>::zero()))), ROp::Alloc(Some(Sx::C(z(&mut rng)))), ROp::Len,
+                                    ROp::Alloc(Some(Sx::C(F::<G>::zero()))), ROp::Len];
+                    g.prog.extend(tail);
+                    g.prog.push(COp::Randomize(body));
+                    g.n1 += 4;
+                    g.n2 += 3;
+                }
                 if k % 8 == 2 {
                     // targeted: an allocation left unpaired at the end of one closure is completed by the next closure
                     // (the pending gate is cleared at the phase switch only), with multipliers_len() read in between
